@@ -479,6 +479,9 @@ func loopsInSource(n ast.Node) []ast.Stmt {
 // contractParamNames: parameter names used by a no-body contract (interface method: the names of the
 // interface method's parameters; function-parameter contract: arg0, arg1, ...).
 func (e *Engine) contractParamNames(key string, fn *ssa.Function) []string {
+	if fc := e.cs.Funcs[key]; fc != nil && len(fc.ParamNames) > 0 {
+		return fc.ParamNames
+	}
 	parts := strings.Split(key, ".")
 	if len(parts) == 3 {
 		if tp, ok := e.tpkgs[parts[0]]; ok {
